@@ -1,6 +1,476 @@
-(* placeholder while the harness is being developed *)
-From QV.lib Require Import Prelude.
+(* C13 — Image registration returns the applied shift with a consistent sign convention.
+   ONLY the property theorems (closed by `exact`), their assumption reports and non-vacuity
+   examples.
+
+   Two layers.
+   (1) DFT layer: an arbitrary commutative ring R with a conjugation (conj_ok) and, per axis, a
+       family w : Z -> R of N-th roots of unity with the orthogonality relation (root_ok,
+       lib/DFT.v) — every grid N1 x N2 (odd, even, non-square).  `re : R -> Q` is the real-part
+       read-out (only re (conj z) == re z is assumed); `E : Q -> R` is the character
+       E q = exp(2 pi i q) of the matrix-multiply upsampling kernels (E (z/N) = w (-z)).
+       All these hypotheses are satisfiable together: Example C13_nonvacuous_setting.
+   (2) Estimator layer: the executable model (model/C13_Model.v: np_shift / torch_shift on exact
+       rationals, parameterised by the correlation array cc and the upsampled window ups).
+   Vocabulary (proof/C13_Proofs*.v):
+     uniq_max M N c p q      c has its strict unique maximum over the M x N grid at (p, q)
+     same_on_grid x y        two images agree on the N1 x N2 grid
+     cc_fourier ref im       ifft2 (fft2 ref * conj (fft2 im))            (both estimators)
+     xcorr2 x y j1 j2        sum_n x[n + j] conj y[n], indices modulo the grid;  acorr x = xcorr2 x x
+     ccQ ref im = re o cc_fourier ref im ;  acorrQ x = re o acorr x
+     shifted_of M N s1 s2 R cc     cc[k,l] == R[(k+s1) mod M, (l+s2) mod N]
+     psym M N R              R[k,l] == R[-k mod M, -l mod N]
+     admits M N ms cc p q    max_shift = ms does not mask the peak (p,q) (and cc p q > 0 when a mask is set)
+     win_centred W c loc     the W x W upsampled window has its strict unique maximum at the centre
+                             sample (c,c) and equal neighbours on either side of it along each axis
+     fz n k                  the signed offset np.fft.fftfreq(n, 1/n)[k] of index k
+     ramp t1 t2              the phase ramp exp(-2 pi i (kx t1 + ky t2)) of return_shifted_image, for integers t
+     neg_mod n a a'          a' == -a, except at a == -n/2 (the one asymmetric point of [-n/2, n/2)) where a' == a
+     negc n t t'             t' is congruent to -t modulo n;  windows_swap: the window of the swapped pair
+                             centred at (x', y') = -(x, y) mod (M, N) is the reversed window of the pair *)
+From Coq Require Import ZArith List Lia Ring Arith QArith.
+From QV.lib Require Import Prelude FinSum DFT DFT2 DFT_Inst.
 From QV.model Require Import C13_Model.
-Theorem C13_placeholder : du 2 = 3.
-Proof. reflexivity. Qed.
-Print Assumptions C13_placeholder.
+From QV.proof Require Import C13_Proofs C13_Proofs_Est C13_Proofs_Swap C13_Proofs_DFT C13_Proofs_Inst.
+Local Close Scope Q_scope.
+
+(* ============================================================================ correlation *)
+(* circular cross-correlation theorem, one axis, every N (instance of lib/DFT.v) *)
+Theorem C13_xcorr_theorem_1d :
+  forall (R : Type) (rO rI : R) (radd rmul rsub : R -> R -> R) (ropp : R -> R),
+    ring_theory rO rI radd rmul rsub ropp eq ->
+    forall conj : R -> R, conj_ok radd rmul conj ->
+    forall (N : nat) (w : Z -> R) (Ninv : R), root_ok rO rI radd rmul conj N w Ninv ->
+    forall (x y : nat -> R) (j : nat),
+    idft rO radd rmul N w Ninv (fun k => rmul (dft rO radd rmul N w x k) (conj (dft rO radd rmul N w y k))) j
+    = sumn rO radd N (fun n => rmul (x (zidx N (Z.of_nat n + Z.of_nat j))) (conj (y n))).
+Proof. exact (fun R rO rI radd rmul rsub ropp Rth conj Cok N w Ninv Rok => xcorr_theorem Rth Cok Rok). Qed.
+Print Assumptions C13_xcorr_theorem_1d.
+
+(* ... and on every N1 x N2 grid: ifft2(F_ref conj F_im)[j] = sum_n ref[n + j] conj im[n] *)
+Theorem C13_xcorr_theorem :
+  forall (R : Type) (rO rI : R) (radd rmul rsub : R -> R -> R) (ropp : R -> R),
+    ring_theory rO rI radd rmul rsub ropp eq ->
+    forall conj : R -> R, conj_ok radd rmul conj ->
+    forall (N1 : nat) (w1 : Z -> R) (Ninv1 : R) (N2 : nat) (w2 : Z -> R) (Ninv2 : R),
+    root_ok rO rI radd rmul conj N1 w1 Ninv1 -> root_ok rO rI radd rmul conj N2 w2 Ninv2 ->
+    forall (ref im : nat -> nat -> R) (j1 j2 : nat),
+    cc_fourier R rO radd rmul conj N1 w1 Ninv1 N2 w2 Ninv2 ref im j1 j2
+    = xcorr2 R rO radd rmul conj N1 N2 ref im j1 j2.
+Proof. exact xcorr_thm. Qed.
+Print Assumptions C13_xcorr_theorem.
+
+(* the second image is the first one circularly translated by (s1, s2) (np.roll; any integers,
+   also beyond the cell): the correlation array is the autocorrelation read at k + s *)
+Theorem C13_xcorr_of_shift :
+  forall (R : Type) (rO rI : R) (radd rmul rsub : R -> R -> R) (ropp : R -> R),
+    ring_theory rO rI radd rmul rsub ropp eq ->
+    forall conj : R -> R, conj_ok radd rmul conj ->
+    forall (N1 : nat) (w1 : Z -> R) (Ninv1 : R) (N2 : nat) (w2 : Z -> R) (Ninv2 : R),
+    root_ok rO rI radd rmul conj N1 w1 Ninv1 -> root_ok rO rI radd rmul conj N2 w2 Ninv2 ->
+    forall (ref im : nat -> nat -> R) (s1 s2 : Z) (j1 j2 : nat),
+    same_on_grid R N1 N2 im (roll2 N1 N2 s1 s2 ref) ->
+    cc_fourier R rO radd rmul conj N1 w1 Ninv1 N2 w2 Ninv2 ref im j1 j2
+    = acorr R rO radd rmul conj N1 N2 ref (zidx N1 (Z.of_nat j1 + s1)) (zidx N2 (Z.of_nat j2 + s2)).
+Proof. exact xcorr_of_shift. Qed.
+Print Assumptions C13_xcorr_of_shift.
+
+(* swapping the two images conjugates and point-reflects the correlation; the autocorrelation
+   is Hermitian *)
+Theorem C13_xcorr_swap :
+  forall (R : Type) (rO rI : R) (radd rmul rsub : R -> R -> R) (ropp : R -> R),
+    ring_theory rO rI radd rmul rsub ropp eq ->
+    forall conj : R -> R, conj_ok radd rmul conj ->
+    forall (N1 : nat) (w1 : Z -> R) (Ninv1 : R) (N2 : nat) (w2 : Z -> R) (Ninv2 : R),
+    root_ok rO rI radd rmul conj N1 w1 Ninv1 -> root_ok rO rI radd rmul conj N2 w2 Ninv2 ->
+    forall (x y : nat -> nat -> R) (j1 j2 : nat),
+    xcorr2 R rO radd rmul conj N1 N2 y x j1 j2
+    = conj (xcorr2 R rO radd rmul conj N1 N2 x y (zidx N1 (- Z.of_nat j1)) (zidx N2 (- Z.of_nat j2))).
+Proof. exact xcorr_swap. Qed.
+Print Assumptions C13_xcorr_swap.
+
+(* ============================================================================ index arithmetic *)
+(* the code's centring (t + 0.5 n) % n - 0.5 n on exact rationals, every n >= 1 (odd and even):
+   the result lies in [-n/2, n/2) and is congruent to t; it is the only such number *)
+Theorem C13_centre_wrap :
+  forall (n : nat) (t : Q), 0 < n ->
+    (- (qN n / 2) <= centre n t)%Q /\ (centre n t < qN n / 2)%Q /\
+    (exists k : Z, (centre n t == t + qN n * inject_Z k)%Q) /\
+    (forall (c : Q) (k : Z), (- (qN n / 2) <= c)%Q -> (c < qN n / 2)%Q ->
+                             (c == t + qN n * inject_Z k)%Q -> (c == centre n t)%Q).
+Proof.
+  exact (fun n t Hn => conj (proj1 (centre_range t Hn)) (conj (proj2 (centre_range t Hn))
+           (conj (centre_cong n t) (fun c k H0 H1 Hk => @centre_unique n t c k Hn H0 H1 Hk)))).
+Qed.
+Print Assumptions C13_centre_wrap.
+
+(* an integer peak index p is returned as its signed fftfreq offset: p for p < n/2, p - n otherwise *)
+Theorem C13_centre_of_index :
+  forall n p : nat, p < n ->
+    (centre n (qN p) == inject_Z (fz n p))%Q /\
+    (- Z.of_nat n <= 2 * fz n p < Z.of_nat n)%Z /\ (fz n p mod Z.of_nat n = Z.of_nat p mod Z.of_nat n)%Z.
+Proof.
+  exact (fun n p Hp => conj (centre_of_index Hp)
+           (conj (fz_range Hp) (fz_cong p (Nat.le_lt_trans 0 p n (Nat.le_0_l p) Hp)))).
+Qed.
+Print Assumptions C13_centre_of_index.
+
+(* first-maximum argmax of the correlation of a translated pair: if the autocorrelation R has its
+   strict unique maximum at the origin, the coarse peak is at (-s1 mod M, -s2 mod N) *)
+Theorem C13_coarse_peak :
+  forall (M N : nat) (s1 s2 : Z) (R cc : nat -> nat -> Q),
+    uniq_max M N R 0 0 -> shifted_of M N s1 s2 R cc ->
+    argmax2 M N cc = (wrapi M (- s1), wrapi N (- s2)).
+Proof. exact coarse_peak. Qed.
+Print Assumptions C13_coarse_peak.
+
+(* three-point parabola (v2 - v0) / (4 v1 - 2 v2 - 2 v0): zero for equal neighbours; at a weak
+   maximum the vertex is within half a sample, on the side of the larger neighbour *)
+Theorem C13_parabola :
+  forall v0 v1 v2 d : Q, parab v0 v1 v2 = Some d ->
+    ((v0 == v2)%Q -> (d == 0)%Q) /\
+    ((v0 <= v1)%Q -> (v2 <= v1)%Q ->
+       (- (1 # 2) <= d)%Q /\ (d <= 1 # 2)%Q /\ ((v0 < v2)%Q -> (0 < d)%Q) /\ ((v2 < v0)%Q -> (d < 0)%Q)).
+Proof.
+  exact (fun v0 v1 v2 d H =>
+           conj (fun E => @parab_symmetric v0 v1 v2 d E H)
+                (fun H0 H2 => conj (proj1 (@parab_within_half v0 v1 v2 d H0 H2 H))
+                              (conj (proj2 (@parab_within_half v0 v1 v2 d H0 H2 H))
+                                    (@parab_sign v0 v1 v2 d H0 H2 H)))).
+Qed.
+Print Assumptions C13_parabola.
+
+(* the upsampling window: du = ceil(1.5 up); 2 du + 1 samples per axis; sample a sits at
+   x0 + (a - du)/up, the centre sample du at x0, consecutive samples 1/up apart *)
+Theorem C13_upsample_window :
+  forall (up : nat) (x0 : Q), 0 < up ->
+    3 * up <= 2 * du up < 3 * up + 2 /\ np_win up = 2 * du up + 1 /\
+    (np_coord up x0 (du up) == x0)%Q /\
+    (forall a, (np_coord up x0 (S a) - np_coord up x0 a == 1 / qN up)%Q).
+Proof.
+  intros up x0 Hup. split.
+  - unfold du. pose proof (Nat.div_mod (3 * up + 1) 2). pose proof (Nat.mod_upper_bound (3 * up + 1) 2). lia.
+  - split; [reflexivity|]. split; [exact (np_coord_centre up x0 Hup)|].
+    exact (fun a => np_coord_step up x0 a Hup).
+Qed.
+Print Assumptions C13_upsample_window.
+
+(* torch: numRow = ceil(1.5 up), globalShift = floor(numRow/2), upsampleCenter = globalShift - up xs:
+   window sample a sits at xs + (a - globalShift)/up *)
+Theorem C13_upsample_window_torch :
+  forall (up : nat) (xs : Q) (a : nat), 0 < up ->
+    (t_coord up (t_center up xs) a == xs + inject_Z (Z.of_nat a - Z.of_nat (t_gs up)) / qN up)%Q.
+Proof. exact t_coord_center. Qed.
+Print Assumptions C13_upsample_window_torch.
+
+(* ============================================================================ upsampling kernels *)
+(* NumPy dft_upsample (repaired kernels): the matrix product kern_row @ F @ kern_col, entry [a,b],
+   is N1 N2 times the band-limited interpolant of ifft2 F at (x0 + (a-du)/up, y0 + (b-du)/up) *)
+Theorem C13_upsample_samples_interpolant_numpy :
+  forall (R : Type) (rO rI : R) (radd rmul rsub : R -> R -> R) (ropp : R -> R),
+    ring_theory rO rI radd rmul rsub ropp eq ->
+    forall conj : R -> R, conj_ok radd rmul conj ->
+    forall (N1 : nat) (w1 : Z -> R) (Ninv1 : R) (N2 : nat) (w2 : Z -> R) (Ninv2 : R),
+    root_ok rO rI radd rmul conj N1 w1 Ninv1 -> root_ok rO rI radd rmul conj N2 w2 Ninv2 ->
+    forall E : Q -> R, (forall p q : Q, (p == q)%Q -> E p = E q) ->
+    forall (F : nat -> nat -> R) (up : nat) (x0 y0 : Q) (a b : nat), 0 < up ->
+    kernel_product R rO radd rmul N1 N2 E F (np_kern_phase N1 up x0) (np_kern_phase N2 up y0) a b
+    = rmul (rmul (of_nat rO rI radd N1) (of_nat rO rI radd N2))
+           (interp R rO radd rmul N1 Ninv1 N2 Ninv2 E F (np_coord up x0 a) (np_coord up y0 b)).
+Proof. exact np_upsample_samples_interpolant. Qed.
+Print Assumptions C13_upsample_samples_interpolant_numpy.
+
+(* torch dftUpsample_torch applied to conj(cc), result conjugated: the same interpolant at the
+   torch window coordinates *)
+Theorem C13_upsample_samples_interpolant_torch :
+  forall (R : Type) (rO rI : R) (radd rmul rsub : R -> R -> R) (ropp : R -> R),
+    ring_theory rO rI radd rmul rsub ropp eq ->
+    forall conj : R -> R, conj_ok radd rmul conj ->
+    forall (N1 : nat) (w1 : Z -> R) (Ninv1 : R) (N2 : nat) (w2 : Z -> R) (Ninv2 : R),
+    root_ok rO rI radd rmul conj N1 w1 Ninv1 -> root_ok rO rI radd rmul conj N2 w2 Ninv2 ->
+    forall E : Q -> R, (forall p q : Q, (p == q)%Q -> E p = E q) ->
+    (forall q : Q, conj (E q) = E (- q)%Q) ->
+    forall (F : nat -> nat -> R) (up : nat) (c1 c2 : Q) (a b : nat), 0 < up ->
+    conj (kernel_product R rO radd rmul N1 N2 E (fun k l : nat => conj (F k l))
+            (t_kern_phase N1 up c1) (t_kern_phase N2 up c2) a b)
+    = rmul (rmul (of_nat rO rI radd N1) (of_nat rO rI radd N2))
+           (interp R rO radd rmul N1 Ninv1 N2 Ninv2 E F (t_coord up c1 a) (t_coord up c2 b)).
+Proof. exact torch_upsample_samples_interpolant. Qed.
+Print Assumptions C13_upsample_samples_interpolant_torch.
+
+(* the interpolant passes through the correlation array at whole-pixel positions (any integers,
+   taken modulo the grid) *)
+Theorem C13_interpolant_at_grid :
+  forall (R : Type) (rO rI : R) (radd rmul rsub : R -> R -> R) (ropp : R -> R),
+    ring_theory rO rI radd rmul rsub ropp eq ->
+    forall conj : R -> R, conj_ok radd rmul conj ->
+    forall (N1 : nat) (w1 : Z -> R) (Ninv1 : R) (N2 : nat) (w2 : Z -> R) (Ninv2 : R),
+    root_ok rO rI radd rmul conj N1 w1 Ninv1 -> root_ok rO rI radd rmul conj N2 w2 Ninv2 ->
+    forall E : Q -> R, (forall p q : Q, (p == q)%Q -> E p = E q) ->
+    (forall z : Z, E (inject_Z z / qN N1)%Q = w1 (- z)%Z) ->
+    (forall z : Z, E (inject_Z z / qN N2)%Q = w2 (- z)%Z) ->
+    forall (F : nat -> nat -> R) (X Y : Q) (n1 n2 : Z),
+    (X == inject_Z n1)%Q -> (Y == inject_Z n2)%Q ->
+    interp R rO radd rmul N1 Ninv1 N2 Ninv2 E F X Y
+    = idft2 rO radd rmul N1 w1 Ninv1 N2 w2 Ninv2 F (zidx N1 n1) (zidx N2 n2).
+Proof. exact interp_at_grid. Qed.
+Print Assumptions C13_interpolant_at_grid.
+
+(* ============================================================================ integer shifts *)
+(* the convention: multiplying the spectrum of the second image by the phase ramp of any integer
+   pair t with t + s = 0 (mod size) reproduces the first image *)
+Theorem C13_shift_reproduces_first :
+  forall (R : Type) (rO rI : R) (radd rmul rsub : R -> R -> R) (ropp : R -> R),
+    ring_theory rO rI radd rmul rsub ropp eq ->
+    forall conj : R -> R, conj_ok radd rmul conj ->
+    forall (N1 : nat) (w1 : Z -> R) (Ninv1 : R) (N2 : nat) (w2 : Z -> R) (Ninv2 : R),
+    root_ok rO rI radd rmul conj N1 w1 Ninv1 -> root_ok rO rI radd rmul conj N2 w2 Ninv2 ->
+    forall (ref im : nat -> nat -> R) (s1 s2 t1 t2 : Z) (n1 n2 : nat),
+    same_on_grid R N1 N2 im (roll2 N1 N2 s1 s2 ref) ->
+    ((t1 + s1) mod Z.of_nat N1)%Z = 0%Z -> ((t2 + s2) mod Z.of_nat N2)%Z = 0%Z ->
+    n1 < N1 -> n2 < N2 ->
+    fmul2 rO radd rmul N1 w1 Ninv1 N2 w2 Ninv2 (ramp R rmul N1 w1 N2 w2 t1 t2) im n1 n2 = ref n1 n2.
+Proof. exact shift_reproduces_first. Qed.
+Print Assumptions C13_shift_reproduces_first.
+
+(* NumPy estimator, EVERY upsampling factor and max_shift setting that admits the peak: for a
+   circularly translated copy whose autocorrelation peak is unique, the returned shift is the
+   integer pair (t1, t2) in the centred cell with t + s = 0 (mod size) — exactly — and translating
+   the second image by it (the phase ramp of return_shifted_image) reproduces the first.
+   For up >= 2 the hypothesis on the upsampled window is explicit (win_centred). *)
+Theorem C13_integer_shift_exact_numpy :
+  forall (R : Type) (rO rI : R) (radd rmul rsub : R -> R -> R) (ropp : R -> R),
+    ring_theory rO rI radd rmul rsub ropp eq ->
+    forall conj : R -> R, conj_ok radd rmul conj ->
+    forall (N1 : nat) (w1 : Z -> R) (Ninv1 : R) (N2 : nat) (w2 : Z -> R) (Ninv2 : R),
+    root_ok rO rI radd rmul conj N1 w1 Ninv1 -> root_ok rO rI radd rmul conj N2 w2 Ninv2 ->
+    forall re : R -> Q, (forall z : R, (re (conj z) == re z)%Q) ->
+    forall (ref im : nat -> nat -> R) (s1 s2 : Z) (ms : option Q) (up : nat) (ups : Q -> Q -> nat -> nat -> Q),
+    2 <= N1 -> 2 <= N2 ->
+    same_on_grid R N1 N2 im (roll2 N1 N2 s1 s2 ref) ->
+    uniq_max N1 N2 (acorrQ R rO radd rmul conj N1 N2 re ref) 0 0 ->
+    admits N1 N2 ms (ccQ R rO radd rmul conj N1 w1 Ninv1 N2 w2 Ninv2 re ref im) (wrapi N1 (- s1)) (wrapi N2 (- s2)) ->
+    (2 <= up -> forall x y : Q, (x == qN (wrapi N1 (- s1)))%Q -> (y == qN (wrapi N2 (- s2)))%Q ->
+                win_centred (np_win up) (du up) (ups x y)) ->
+    exists a b : Q,
+      np_shift N1 N2 ms up (ccQ R rO radd rmul conj N1 w1 Ninv1 N2 w2 Ninv2 re ref im) ups = Some (a, b) /\
+      exists t1 t2 : Z,
+        (a == inject_Z t1)%Q /\ (b == inject_Z t2)%Q /\
+        (- Z.of_nat N1 <= 2 * t1 < Z.of_nat N1)%Z /\ (- Z.of_nat N2 <= 2 * t2 < Z.of_nat N2)%Z /\
+        ((t1 + s1) mod Z.of_nat N1)%Z = 0%Z /\ ((t2 + s2) mod Z.of_nat N2)%Z = 0%Z /\
+        (forall n1 n2 : nat, n1 < N1 -> n2 < N2 ->
+           fmul2 rO radd rmul N1 w1 Ninv1 N2 w2 Ninv2 (ramp R rmul N1 w1 N2 w2 t1 t2) im n1 n2 = ref n1 n2).
+Proof. exact registration_integer_numpy. Qed.
+Print Assumptions C13_integer_shift_exact_numpy.
+
+(* torch estimator (cross_correlation_shift_torch), every upsampling factor *)
+Theorem C13_integer_shift_exact_torch :
+  forall (R : Type) (rO rI : R) (radd rmul rsub : R -> R -> R) (ropp : R -> R),
+    ring_theory rO rI radd rmul rsub ropp eq ->
+    forall conj : R -> R, conj_ok radd rmul conj ->
+    forall (N1 : nat) (w1 : Z -> R) (Ninv1 : R) (N2 : nat) (w2 : Z -> R) (Ninv2 : R),
+    root_ok rO rI radd rmul conj N1 w1 Ninv1 -> root_ok rO rI radd rmul conj N2 w2 Ninv2 ->
+    forall re : R -> Q, (forall z : R, (re (conj z) == re z)%Q) ->
+    forall (ref im : nat -> nat -> R) (s1 s2 : Z) (up : nat) (ups : Q -> Q -> nat -> nat -> Q),
+    2 <= N1 -> 2 <= N2 ->
+    same_on_grid R N1 N2 im (roll2 N1 N2 s1 s2 ref) ->
+    uniq_max N1 N2 (acorrQ R rO radd rmul conj N1 N2 re ref) 0 0 ->
+    (3 <= up -> forall cx cy : Q,
+        (cx == qN (t_gs up) - qN up * qN (wrapi N1 (- s1)))%Q ->
+        (cy == qN (t_gs up) - qN up * qN (wrapi N2 (- s2)))%Q ->
+        win_centred (t_win up) (t_gs up) (ups cx cy)) ->
+    exists a b : Q,
+      torch_shift N1 N2 up (ccQ R rO radd rmul conj N1 w1 Ninv1 N2 w2 Ninv2 re ref im) ups = Some (a, b) /\
+      exists t1 t2 : Z,
+        (a == inject_Z t1)%Q /\ (b == inject_Z t2)%Q /\
+        (- Z.of_nat N1 <= 2 * t1 < Z.of_nat N1)%Z /\ (- Z.of_nat N2 <= 2 * t2 < Z.of_nat N2)%Z /\
+        ((t1 + s1) mod Z.of_nat N1)%Z = 0%Z /\ ((t2 + s2) mod Z.of_nat N2)%Z = 0%Z /\
+        (forall n1 n2 : nat, n1 < N1 -> n2 < N2 ->
+           fmul2 rO radd rmul N1 w1 Ninv1 N2 w2 Ninv2 (ramp R rmul N1 w1 N2 w2 t1 t2) im n1 n2 = ref n1 n2).
+Proof. exact registration_integer_torch. Qed.
+Print Assumptions C13_integer_shift_exact_torch.
+
+(* the same two statements on ANY correlation array with a unique, locally symmetric peak (the
+   form the correspondence check exercises): the estimators return the signed offset of the peak *)
+Theorem C13_peak_exact :
+  forall (M N : nat) (ms : option Q) (up : nat) (cc : nat -> nat -> Q) (ups : Q -> Q -> nat -> nat -> Q) (p q : nat),
+    2 <= M -> 2 <= N -> uniq_max M N cc p q -> sym_nbrs M N cc p q ->
+    (admits M N ms cc p q ->
+     (2 <= up -> forall x y, (x == qN p)%Q -> (y == qN q)%Q -> win_centred (np_win up) (du up) (ups x y)) ->
+     exists a b, np_shift M N ms up cc ups = Some (a, b) /\
+                 (a == inject_Z (fz M p))%Q /\ (b == inject_Z (fz N q))%Q) /\
+    ((3 <= up -> forall cx cy, (cx == qN (t_gs up) - qN up * qN p)%Q -> (cy == qN (t_gs up) - qN up * qN q)%Q ->
+                 win_centred (t_win up) (t_gs up) (ups cx cy)) ->
+     exists a b, torch_shift M N up cc ups = Some (a, b) /\
+                 (a == inject_Z (fz M p))%Q /\ (b == inject_Z (fz N q))%Q).
+Proof.
+  exact (fun M N ms up cc ups p q HM HN Hu Hs =>
+           conj (fun Ha Hw => @np_peak_exact M N ms up cc ups p q HM HN Hu Ha Hs Hw)
+                (fun Hw => @torch_peak_exact M N up cc ups p q HM HN Hu Hs Hw)).
+Qed.
+Print Assumptions C13_peak_exact.
+
+(* ============================================================================ identical images *)
+(* identical images give a zero shift for EVERY upsampling factor (and every max_shift > 0),
+   given that the upsampled window of the autocorrelation has its maximum at the centre sample *)
+Theorem C13_identical_zero_numpy :
+  forall (R : Type) (rO rI : R) (radd rmul rsub : R -> R -> R) (ropp : R -> R),
+    ring_theory rO rI radd rmul rsub ropp eq ->
+    forall conj : R -> R, conj_ok radd rmul conj ->
+    forall (N1 : nat) (w1 : Z -> R) (Ninv1 : R) (N2 : nat) (w2 : Z -> R) (Ninv2 : R),
+    root_ok rO rI radd rmul conj N1 w1 Ninv1 -> root_ok rO rI radd rmul conj N2 w2 Ninv2 ->
+    forall re : R -> Q, (forall z : R, (re (conj z) == re z)%Q) ->
+    forall (ref im : nat -> nat -> R) (ms : option Q) (up : nat) (ups : Q -> Q -> nat -> nat -> Q),
+    2 <= N1 -> 2 <= N2 ->
+    same_on_grid R N1 N2 im ref ->
+    uniq_max N1 N2 (acorrQ R rO radd rmul conj N1 N2 re ref) 0 0 ->
+    match ms with
+    | Some m => (0 < m * m)%Q /\ (0 < acorrQ R rO radd rmul conj N1 N2 re ref 0 0)%Q
+    | None => True
+    end ->
+    (2 <= up -> forall x y : Q, (x == 0)%Q -> (y == 0)%Q -> win_centred (np_win up) (du up) (ups x y)) ->
+    exists a b : Q,
+      np_shift N1 N2 ms up (ccQ R rO radd rmul conj N1 w1 Ninv1 N2 w2 Ninv2 re ref im) ups = Some (a, b) /\
+      (a == 0)%Q /\ (b == 0)%Q.
+Proof. exact registration_identical_numpy. Qed.
+Print Assumptions C13_identical_zero_numpy.
+
+Theorem C13_identical_zero_torch :
+  forall (R : Type) (rO rI : R) (radd rmul rsub : R -> R -> R) (ropp : R -> R),
+    ring_theory rO rI radd rmul rsub ropp eq ->
+    forall conj : R -> R, conj_ok radd rmul conj ->
+    forall (N1 : nat) (w1 : Z -> R) (Ninv1 : R) (N2 : nat) (w2 : Z -> R) (Ninv2 : R),
+    root_ok rO rI radd rmul conj N1 w1 Ninv1 -> root_ok rO rI radd rmul conj N2 w2 Ninv2 ->
+    forall re : R -> Q, (forall z : R, (re (conj z) == re z)%Q) ->
+    forall (ref im : nat -> nat -> R) (up : nat) (ups : Q -> Q -> nat -> nat -> Q),
+    2 <= N1 -> 2 <= N2 ->
+    same_on_grid R N1 N2 im ref ->
+    uniq_max N1 N2 (acorrQ R rO radd rmul conj N1 N2 re ref) 0 0 ->
+    (3 <= up -> forall cx cy : Q, (cx == qN (t_gs up))%Q -> (cy == qN (t_gs up))%Q ->
+                win_centred (t_win up) (t_gs up) (ups cx cy)) ->
+    exists a b : Q,
+      torch_shift N1 N2 up (ccQ R rO radd rmul conj N1 w1 Ninv1 N2 w2 Ninv2 re ref im) ups = Some (a, b) /\
+      (a == 0)%Q /\ (b == 0)%Q.
+Proof. exact registration_identical_torch. Qed.
+Print Assumptions C13_identical_zero_torch.
+
+(* ============================================================================ swapped images *)
+(* NumPy estimator, every upsampling factor, ANY pair of images whose correlation has a unique
+   peak (sub-pixel shifts included): swapping the images negates the result; at the boundary
+   value -n/2 of the half-open cell (even n, shift of exactly half the size) both calls return
+   -n/2, which is its own negative modulo n.  For up >= 2: the windows of the swapped pair are
+   the reversed windows (windows_swap) and each window has a unique maximum. *)
+Theorem C13_swap_negates_numpy :
+  forall (R : Type) (rO rI : R) (radd rmul rsub : R -> R -> R) (ropp : R -> R),
+    ring_theory rO rI radd rmul rsub ropp eq ->
+    forall conj : R -> R, conj_ok radd rmul conj ->
+    forall (N1 : nat) (w1 : Z -> R) (Ninv1 : R) (N2 : nat) (w2 : Z -> R) (Ninv2 : R),
+    root_ok rO rI radd rmul conj N1 w1 Ninv1 -> root_ok rO rI radd rmul conj N2 w2 Ninv2 ->
+    forall re : R -> Q, (forall z : R, (re (conj z) == re z)%Q) ->
+    forall (ref im : nat -> nat -> R) (up : nat) (ups ups' : Q -> Q -> nat -> nat -> Q) (p q : nat),
+    2 <= N1 -> 2 <= N2 ->
+    uniq_max N1 N2 (ccQ R rO radd rmul conj N1 w1 Ninv1 N2 w2 Ninv2 re ref im) p q ->
+    (2 <= up ->
+     windows_swap N1 N2 up ups ups' /\
+     (forall x y : Q, exists lx ly : nat, uniq_max (np_win up) (np_win up) (ups x y) lx ly)) ->
+    exists a b a' b' : Q,
+      np_shift N1 N2 None up (ccQ R rO radd rmul conj N1 w1 Ninv1 N2 w2 Ninv2 re ref im) ups = Some (a, b) /\
+      np_shift N1 N2 None up (ccQ R rO radd rmul conj N1 w1 Ninv1 N2 w2 Ninv2 re im ref) ups' = Some (a', b') /\
+      neg_mod N1 a a' /\ neg_mod N2 b b'.
+Proof. exact registration_swap_numpy. Qed.
+Print Assumptions C13_swap_negates_numpy.
+
+(* ============================================================================ sub-pixel (partial) *)
+(* PARTIAL.  With upsampling the NumPy estimator returns, centred, the position of the largest
+   window sample plus a correction of at most half an upsampled pixel.  NOT proved (validated on
+   the implementation by the check): that the largest sample of the interpolant is the one
+   nearest to the true sub-pixel shift, which would give the 1/upsample_factor bound. *)
+Theorem C13_subpixel_accuracy_partial :
+  forall (M N up : nat) (cc : nat -> nat -> Q) (ups : Q -> Q -> nat -> nat -> Q) (p q : nat),
+    2 <= M -> 2 <= N -> 2 <= up -> uniq_max M N cc p q ->
+    (forall x y, exists lx ly, uniq_max (np_win up) (np_win up) (ups x y) lx ly) ->
+    exists (x0 y0 : Q) (lx ly : nat) (dx dy : Q),
+      np_stage1 M N None cc = Some ((p, q), (x0, y0)) /\
+      uniq_max (np_win up) (np_win up) (ups x0 y0) lx ly /\
+      np_shift M N None up cc ups
+      = Some (centre M (np_coord up x0 lx + dx / qN up), centre N (np_coord up y0 ly + dy / qN up))%Q /\
+      (- (1 # 2) <= dx /\ dx <= 1 # 2)%Q /\ (- (1 # 2) <= dy /\ dy <= 1 # 2)%Q.
+Proof. exact np_subpixel_partial. Qed.
+Print Assumptions C13_subpixel_accuracy_partial.
+
+(* ============================================================================ non-vacuity *)
+(* every hypothesis of the DFT layer holds for the Gaussian rationals, N1 = N2 = 4, w k = (-i)^k,
+   re = real part, E = exp(2 pi i .) on the quarter-integers *)
+Example C13_nonvacuous_setting :
+  setting_ok C c0 c1 cadd cmul csub copp cconj 4 w4 quarter 4 w4 quarter reC E4.
+Proof. exact setting_instance. Qed.
+
+(* the integer-shift theorems applied to a concrete 4 x 4 pair (second image = first rolled by
+   (1, 2)); all hypotheses discharged; the model evaluates to (-1, -2) *)
+Example C13_nonvacuous_integer_shift_numpy :
+  exists a b : Q,
+    np_shift 4 4 None 2 (ccQ C c0 cadd cmul cconj 4 w4 quarter 4 w4 quarter reC ref4 im4) (peak_win (du 2)) = Some (a, b) /\
+    exists t1 t2 : Z,
+      (a == inject_Z t1)%Q /\ (b == inject_Z t2)%Q /\
+      (- Z.of_nat 4 <= 2 * t1 < Z.of_nat 4)%Z /\ (- Z.of_nat 4 <= 2 * t2 < Z.of_nat 4)%Z /\
+      ((t1 + 1) mod Z.of_nat 4 = 0)%Z /\ ((t2 + 2) mod Z.of_nat 4 = 0)%Z /\
+      forall n1 n2, n1 < 4 -> n2 < 4 ->
+        fmul2 c0 cadd cmul 4 w4 quarter 4 w4 quarter (ramp C cmul 4 w4 4 w4 t1 t2) im4 n1 n2 = ref4 n1 n2.
+Proof. exact inst_integer_numpy. Qed.
+
+Example C13_nonvacuous_integer_shift_value :
+  match np_shift 4 4 None 2 (ccQ C c0 cadd cmul cconj 4 w4 quarter 4 w4 quarter reC ref4 im4) (peak_win (du 2)) with
+  | Some (a, b) => Qeq_bool a (-1) && Qeq_bool b (-2)
+  | None => false
+  end = true.
+Proof. exact inst_integer_numpy_value. Qed.
+
+Example C13_nonvacuous_integer_shift_torch :
+  exists a b : Q,
+    torch_shift 4 4 4 (ccQ C c0 cadd cmul cconj 4 w4 quarter 4 w4 quarter reC ref4 im4) (peak_win (t_gs 4)) = Some (a, b) /\
+    exists t1 t2 : Z,
+      (a == inject_Z t1)%Q /\ (b == inject_Z t2)%Q /\
+      (- Z.of_nat 4 <= 2 * t1 < Z.of_nat 4)%Z /\ (- Z.of_nat 4 <= 2 * t2 < Z.of_nat 4)%Z /\
+      ((t1 + 1) mod Z.of_nat 4 = 0)%Z /\ ((t2 + 2) mod Z.of_nat 4 = 0)%Z /\
+      forall n1 n2, n1 < 4 -> n2 < 4 ->
+        fmul2 c0 cadd cmul 4 w4 quarter 4 w4 quarter (ramp C cmul 4 w4 4 w4 t1 t2) im4 n1 n2 = ref4 n1 n2.
+Proof. exact inst_integer_torch. Qed.
+
+Example C13_nonvacuous_identical_zero_numpy :
+  exists a b : Q,
+    np_shift 4 4 (Some 1%Q) 3 (ccQ C c0 cadd cmul cconj 4 w4 quarter 4 w4 quarter reC ref4 ref4) (peak_win (du 3)) = Some (a, b) /\
+    (a == 0)%Q /\ (b == 0)%Q.
+Proof. exact inst_identical_numpy. Qed.
+
+Example C13_nonvacuous_identical_zero_torch :
+  exists a b : Q,
+    torch_shift 4 4 3 (ccQ C c0 cadd cmul cconj 4 w4 quarter 4 w4 quarter reC ref4 ref4) (peak_win (t_gs 3)) = Some (a, b) /\
+    (a == 0)%Q /\ (b == 0)%Q.
+Proof. exact inst_identical_torch. Qed.
+
+(* swap: the row component is negated (-1 -> +1), the column component -2 = -n/2 is reproduced *)
+Example C13_nonvacuous_swap_numpy :
+  exists a b a' b' : Q,
+    np_shift 4 4 None 2 (ccQ C c0 cadd cmul cconj 4 w4 quarter 4 w4 quarter reC ref4 im4) (peak_win (du 2)) = Some (a, b) /\
+    np_shift 4 4 None 2 (ccQ C c0 cadd cmul cconj 4 w4 quarter 4 w4 quarter reC im4 ref4) (peak_win (du 2)) = Some (a', b') /\
+    neg_mod 4 a a' /\ neg_mod 4 b b'.
+Proof. exact inst_swap_numpy. Qed.
+
+Example C13_nonvacuous_swap_value :
+  match np_shift 4 4 None 2 (ccQ C c0 cadd cmul cconj 4 w4 quarter 4 w4 quarter reC im4 ref4) (peak_win (du 2)) with
+  | Some (a, b) => Qeq_bool a 1 && Qeq_bool b (-2)
+  | None => false
+  end = true.
+Proof. exact inst_swap_numpy_value. Qed.
+
+(* a unique peak on an odd x even grid (coarse_peak / peak_exact / subpixel hypotheses) *)
+Example C13_nonvacuous_unique_peak : uniq_max 5 4 cc54 4 1 /\ sym_nbrs 5 4 cc54 4 1.
+Proof. split; [exact cc54_peak | split; vm_compute; reflexivity]. Qed.
+
+(* the repaired max_shift behaviour vs the shipped one, on the model: max_shift = 3/2 admits the
+   peak of cc54 at offset (-1, 1) but masks its row neighbour at (-2, 1) *)
+Example C13_shipped_mask_biased :
+  match np_stage1_shipped 5 4 (Some (3 # 2)%Q) cc54, np_stage1 5 4 (Some (3 # 2)%Q) cc54 with
+  | Some (_, (x, _)), Some (_, (x', _)) => negb (Qeq_bool x 4) && Qeq_bool x' 4
+  | _, _ => false
+  end = true.
+Proof. exact shipped_mask_biased. Qed.
